@@ -37,6 +37,9 @@ for d in sorted(glob.glob(os.path.join(ROOT, "seeded", "*"))):
             if mm:
                 det[mm.group(2)] = {"exit": int(mm.group(3)), "caught": bool(mm.group(4)), "message": mm.group(5)[:300]}
         if det:
+            prev = meta.get("checks_run_against_it", {}).get("results", {})
+            prev.update(det)  # a later run of one check replaces that check's entry only
+            det = prev
             meta["checks_run_against_it"] = {"how": "scripts/seed_check.sh: git -C /repo apply patch.diff; python3 check.py <ID> (quick tier unless noted); git -C /repo checkout -- .", "results": det}
     json.dump(meta, open(mp, "w"), indent=1)
     print(seed, meta.get("verified_in_scratch_worktree", {}).get("existing_suite_with_patch"), sorted(meta.get("checks_run_against_it", {}).get("results", {}).items())[:3])
